@@ -120,6 +120,10 @@ func genPhys(t *rapid.T, root *vt.Node, batches [][]*vt.Val, plain bool) *pqref.
 					pp.Stats = rapid.IntRange(0, 3).Draw(t, "stats")
 					pp.Snappy = rapid.IntRange(0, 2).Draw(t, "snappyMode")
 					pp.CRC = rapid.IntRange(0, 4).Draw(t, "crc") == 0
+				} else {
+					// conservative encoding, but optional header fields (statistics, crc) still vary
+					pp.Stats = rapid.SampledFrom([]int{0, 2, 2}).Draw(t, "stats")
+					pp.CRC = rapid.Bool().Draw(t, "crc")
 				}
 				r += k
 				cp.Pages = append(cp.Pages, pp)
